@@ -121,6 +121,44 @@ def orientationWithin (c : Chain) (ref : Option Nat) : Except Panic Int :=
   | none => .ok 0
   | some r => oriWithinLoop limit 1 c r
 
+/-! ### changes of a chain between two queries
+
+The functions above keep nothing between calls: every query walks the chain as it is *now*.  A caller may,
+between two queries, give a feature of the chain another orientation (`g.Orient = feat.Reverse`) or
+another start (`g.Offset = 500`); the identity of the feature stays what it was.  `chainApply` is that
+assignment on the chain seen from the bottom feature (`k = 0`) — the histories of the driver carry
+the current chain through it and query the functions above on the result. -/
+
+/-- `x.Orient = o` for a feature that implements `Orienter` (a feature that does not has no
+    orientation to assign) -/
+def Node.setOrient (x : Node) (o : Int) : Node :=
+  match x.orient with
+  | some _ => { x with orient := some o }
+  | none => x
+
+/-- `x.Offset = s` -/
+def Node.setStart (x : Node) (s : Int) : Node := { x with start := s }
+
+/-- apply `f` to the `k`-th feature of the chain (nothing beyond its end) -/
+def modifyAt (f : Node → Node) : Nat → Chain → Chain
+  | _, [] => []
+  | 0, x :: rest => f x :: rest
+  | k + 1, x :: rest => x :: modifyAt f k rest
+
+inductive ChainOp
+  | orient (k : Nat) (o : Int)   -- the `k`-th feature's orientation becomes `o`
+  | move (k : Nat) (s : Int)     -- the `k`-th feature's start becomes `s`
+  deriving DecidableEq, Repr
+
+/-- the feature assigned to -/
+def ChainOp.index : ChainOp → Nat
+  | .orient k _ => k
+  | .move k _ => k
+
+def chainApply (c : Chain) : ChainOp → Chain
+  | .orient k o => modifyAt (·.setOrient o) k c
+  | .move k s => modifyAt (·.setStart s) k c
+
 /-! ### 1-based / 0-based conversion -/
 
 def oneToZero (pos : Int) : Except Panic Int :=
